@@ -39,6 +39,7 @@ type advSim struct {
 	compact   bool
 	values    [][]byte
 	direct    [][]byte // everything the adversary crafted (material for later crafting)
+	netFaults bool     // the correct operators' own Broadcast calls fail now and then (after / before sending)
 	alt       *altRole // the correct operators' controllers for a second duty role (other identifier), see crossrole.go
 	altValues [][]byte
 }
@@ -68,6 +69,7 @@ func (a *advSim) addNodes(env *Env, h specqbft.Height, compact bool) {
 		if !nd.byz {
 			nd.c = newCase(env, id, h, [][]byte{badValue}, true, false, compact)
 			nd.c.in = shared
+			nd.c.c07 = *mode == "c07"
 			nd.c.emit(nd.c.resetLine(), "ok")
 		}
 		a.nodes = append(a.nodes, nd)
@@ -160,6 +162,10 @@ func (a *advSim) deliverTo(nd *SimNode, enc []byte) {
 	if m == nil {
 		return
 	}
+	if a.netFaults && a.r.Chance(2) { // the operator's own network layer fails once
+		nd.c.nf = []string{"a", "a", "b"}[a.r.Intn(3)]
+		a.tags = append(a.tags, "net/own-broadcast-fails-"+nd.c.nf)
+	}
 	r := nd.c.applyCtrlDeliver(m)
 	a.collect(nd, r.bcasts)
 	if a.compact {
@@ -168,14 +174,18 @@ func (a *advSim) deliverTo(nd *SimNode, enc []byte) {
 	a.after(nd, r)
 }
 
-func (a *advSim) timeoutOn(nd *SimNode) {
-	var round specqbft.Round = 1
-	if inst := nd.c.ctrl.StoredInstances.FindInstance(a.h); inst != nil {
-		round = inst.State.Round
+// timeoutOn: the operator's round timer fires — the ONE timer it armed last (TimeoutForRound replaces the previous one), with
+// the height and round it was armed for (Controller.OnTimeout discards a timeout for another round). No live timer: nothing fires.
+func (a *advSim) timeoutOn(nd *SimNode) bool {
+	c := nd.c
+	if !c.armedOK {
+		a.tags = append(a.tags, "timer/none-live")
+		return false
 	}
-	r := nd.c.applyCtrlTimeout(a.h, round)
+	r := c.applyCtrlTimeout(specqbft.Height(c.armedH), specqbft.Round(c.armedR))
 	a.collect(nd, r.bcasts)
 	a.after(nd, r)
+	return true
 }
 
 func (a *advSim) startAll(vals [][]byte) {
@@ -462,10 +472,19 @@ func (a *advSim) schedStep() {
 			a.altTimeout(nd.id)
 		}
 	case x < 88:
-		a.altStep()
+		switch y := r.Intn(10); {
+		case y < 2:
+			a.pullLaggards()
+		case y < 3:
+			a.dropRoundChanges(0)
+		default:
+			a.altStep()
+		}
 	case x < 95:
-		if a.alt != nil && r.Chance(35) {
+		if a.alt != nil && r.Chance(30) {
 			a.byzCrossRole()
+		} else if r.Chance(30) {
+			a.byzAct2()
 		} else {
 			a.byzAct()
 		}
@@ -682,6 +701,7 @@ func (a *advSim) continuation() (int, string) {
 			}
 		}
 	}
+	pullTried := false
 	for step := 0; ; step++ {
 		a.flushHonest(20000)
 		if a.allDecided() {
@@ -697,31 +717,69 @@ func (a *advSim) continuation() (int, string) {
 		if int(a.maxRound())+1 >= 15 {
 			return -1, "cutoff"
 		}
-		// all undecided correct operators time out (aligning rounds: those behind time out until they reach the maximum)
-		mr := a.maxRound()
+		// timers. Only live timers fire, with the round they were armed for. (1) first choice, once: if at least f+1 undecided
+		// operators are in the highest round and others are behind, only those in front time out — their announcements must
+		// pull the others (partial quorum); (2) operators still behind are aligned by their own timers; (3) everybody in the
+		// same round: all undecided operators time out.
+		var und []*SimNode
+		var mr specqbft.Round
 		for _, nd := range a.honest() {
-			inst := nd.c.ctrl.StoredInstances.FindInstance(a.h)
-			if inst == nil || inst.State.Decided {
-				continue
-			}
-			for a.round(nd) < mr {
-				a.timeoutOn(nd)
+			if inst := nd.c.ctrl.StoredInstances.FindInstance(a.h); inst != nil && !inst.State.Decided {
+				und = append(und, nd)
+				if inst.State.Round > mr {
+					mr = inst.State.Round
+				}
 			}
 		}
-		for _, nd := range a.honest() {
-			inst := nd.c.ctrl.StoredInstances.FindInstance(a.h)
-			if inst == nil || inst.State.Decided {
-				continue
-			}
+		var top, behind []*SimNode
+		for _, nd := range und {
 			if a.round(nd) == mr {
-				a.timeoutOn(nd)
+				top = append(top, nd)
+			} else {
+				behind = append(behind, nd)
 			}
+		}
+		fired := false
+		switch {
+		case len(behind) > 0 && !pullTried && uint64(len(top)) >= a.env.pq:
+			pullTried = true
+			a.tags = append(a.tags, "c07/continuation-pull-by-f+1")
+			for _, nd := range top {
+				fired = a.timeoutOn(nd) || fired
+			}
+		case len(behind) > 0:
+			for _, nd := range behind {
+				for a.round(nd) < mr && a.timeoutOn(nd) {
+					fired = true
+				}
+			}
+			if !fired { // nobody behind can move by itself any more: the front moves on (and may pull)
+				for _, nd := range top {
+					fired = a.timeoutOn(nd) || fired
+				}
+			}
+		default:
+			for _, nd := range top {
+				fired = a.timeoutOn(nd) || fired
+			}
+		}
+		if !fired {
+			return -1, "no-live-timer"
 		}
 	}
 }
 
 func (a *advSim) outs(extra []string) []caseOut {
 	var outs []caseOut
+	if *mode == "c07" {
+		var cs []*Case
+		for _, nd := range a.honest() {
+			cs = append(cs, nd.c)
+		}
+		if d, ok := refusedCorrectProposals(cs); ok {
+			a.violate("C07/correct-leaders-proposal-refused", d)
+		}
+	}
 	for i, nd := range a.honest() {
 		t := append([]string{}, extra...)
 		if i == 0 {
@@ -756,6 +814,7 @@ func runSim(r *hx.Rng, withContinuation bool) []caseOut {
 			vals[i] = valueBytes(base + i)
 		}
 	}
+	a.netFaults = r.Chance(40)
 	a.startAll(vals)
 	if r.Chance(60) { // the correct operators also run a second duty role at this height
 		a.altValues = make([][]byte, env.n)
@@ -801,6 +860,51 @@ func runSim(r *hx.Rng, withContinuation bool) []caseOut {
 //     received — a decided operator neither times out nor re-broadcasts the certificate it accepted) and the undecided correct
 //     operators alone are fewer than a quorum.
 func (a *advSim) wedgeCause() string {
+	var cs []*Case
+	for _, nd := range a.honest() {
+		cs = append(cs, nd.c)
+	}
+	if st := a.wedgeCauseStructural(); st != ":other" {
+		return st
+	}
+	if sp := wedgeCauseOf(cs); sp != "" {
+		return sp
+	}
+	return ":other"
+}
+
+// wedgeCauseOf: causes that cannot occur on a tree on which the step-level oracles (c07.go) hold
+func wedgeCauseOf(cs []*Case) string {
+	for _, c := range cs {
+		inst := c.ctrl.StoredInstances.FindInstance(c.height)
+		if inst == nil || inst.State.Decided || !inst.CanProcessMessages() {
+			continue
+		}
+		if !c.armedOK || c.armedR != uint64(inst.State.Round) || c.armedH != uint64(c.height) {
+			return ":operator-without-live-round-timer"
+		}
+	}
+	for _, c := range cs {
+		inst := c.ctrl.StoredInstances.FindInstance(c.height)
+		if inst == nil || inst.State.Decided || !inst.CanProcessMessages() {
+			continue
+		}
+		signers := map[spectypes.OperatorID]bool{}
+		for _, x := range inst.State.RoundChangeContainer.AllMessaged() {
+			if x.Message.Round > inst.State.Round {
+				for _, s := range x.Signers {
+					signers[s] = true
+				}
+			}
+		}
+		if uint64(len(signers)) >= c.env.pq {
+			return ":operator-not-pulled-by-f+1-round-changes"
+		}
+	}
+	return ""
+}
+
+func (a *advSim) wedgeCauseStructural() string {
 	vals := map[string]bool{}
 	undecided, decided := 0, 0
 	for _, nd := range a.honest() {
